@@ -49,6 +49,7 @@ inductive Ty where
   | arr (n : Nat) (t : Ty)
   | func (sig : Nat)
   | rtErr                       -- the dynamic type of a run-time panic value (`runtime.Error`)
+  | float                       -- float64: only created, divided and compared (NaN); never printed
 deriving DecidableEq, Repr, Inhabited
 
 inductive BinOp where
@@ -72,6 +73,7 @@ inductive Expr where
   | intLit (k : IntKind) (v : Int)
   | boolLit (b : Bool)
   | strLit (s : List Nat)
+  | floatLit (bits : Nat)                             -- float64 given by its IEEE-754 bit pattern
   | nil (k : NilKind)
   | blank                                             -- `_` on the left of an assignment
   | var (x : Nat)
@@ -213,6 +215,7 @@ inductive Val where
   | iface (d : Option (Ty × Val))
   | bound (f : Nat) (recv : Val)                       -- method value: function id with its receiver
   | blank (v : Val)                                    -- content of a blank struct field
+  | float (f : Float)
 deriving Repr, Inhabited
 
 /-- non-local completion of a statement -/
@@ -339,6 +342,7 @@ def Val.beq : Val → Val → Bool
   | .int k a, .int k' b => k = k' && a = b
   | .bool a, .bool b => a = b
   | .str a, .str b => a = b
+  | .float a, .float b => a == b                       -- IEEE: NaN is not equal to itself
   | .struct a, .struct b => Val.beqList a b
   | .arr a, .arr b => Val.beqList a b
   | .ptr a, .ptr b => a = b
@@ -352,6 +356,23 @@ def Val.beqList : List Val → List Val → Bool
   | [], [] => true
   | a :: as, b :: bs => Val.beq a b && Val.beqList as bs
   | _, _ => false
+end
+
+mutual
+/-- does `==` on two interface values holding this value panic ("comparing uncomparable type")?  Slices, funcs and
+    anything containing them are not comparable; an interface-typed part is checked dynamically. -/
+def Val.uncomparable : Val → Bool
+  | .slice _ _ _ _ => true
+  | .func _ => true
+  | .bound _ _ => true
+  | .struct fs => Val.anyUncomparable fs
+  | .arr es => Val.anyUncomparable es
+  | .iface (some (_, v)) => Val.uncomparable v
+  | .blank _ => false
+  | _ => false
+def Val.anyUncomparable : List Val → Bool
+  | [] => false
+  | v :: vs => Val.uncomparable v || Val.anyUncomparable vs
 end
 
 def natToDigits (n : Nat) : List Nat := (toString n).toUTF8.toList.map (·.toNat)
@@ -420,6 +441,18 @@ def binop (op : BinOp) (a b : Val) : Except Abort Val :=
   | .le, .str x, .str y => .ok (.bool (!lexLt y x))
   | .gt, .str x, .str y => .ok (.bool (lexLt y x))
   | .ge, .str x, .str y => .ok (.bool (!lexLt x y))
+  | .add, .float x, .float y => .ok (.float (x + y))
+  | .sub, .float x, .float y => .ok (.float (x - y))
+  | .mul, .float x, .float y => .ok (.float (x * y))
+  | .quo, .float x, .float y => .ok (.float (x / y))
+  | .lt, .float x, .float y => .ok (.bool (x < y))
+  | .le, .float x, .float y => .ok (.bool (x ≤ y))
+  | .gt, .float x, .float y => .ok (.bool (y < x))
+  | .ge, .float x, .float y => .ok (.bool (y ≤ x))
+  | .eq, .iface (some (t, v)), .iface (some (t', v')) =>
+    if t = t' && Val.uncomparable v then .error (rtPanic "comparing uncomparable type") else .ok (.bool (t = t' && Val.beq v v'))
+  | .ne, .iface (some (t, v)), .iface (some (t', v')) =>
+    if t = t' && Val.uncomparable v then .error (rtPanic "comparing uncomparable type") else .ok (.bool (!(t = t' && Val.beq v v')))
   | .eq, x, y => .ok (.bool (Val.beq x y))
   | .ne, x, y => .ok (.bool (!Val.beq x y))
   | _, _, _ => .error (.stuck "binop: operands")
@@ -868,6 +901,7 @@ def stepExpr (e : Expr) (env : Env) : M Ret := do
   | .intLit k v => pure (.vals [.int k (wrap k v)])
   | .boolLit b => pure (.vals [.bool b])
   | .strLit s => pure (.vals [.str s])
+  | .floatLit bits => pure (.vals [.float (Float.ofBits (UInt64.ofNat bits))])
   | .nil .ptr => pure (.vals [.ptr none])
   | .nil .slice => pure (.vals [.slice none 0 0 0])
   | .nil .iface => pure (.vals [.iface none])
